@@ -1117,3 +1117,116 @@ func blockReachAvoid(from, to, avoid *ssa.BasicBlock) bool {
 	}
 	return blockReach(from, map[*ssa.BasicBlock]bool{avoid: true})[to]
 }
+
+// reachWithNilFacts: can control flow from the start of block `from` reach block `to` without entering a block in
+// stop, when the outcomes of `x == nil` / `x != nil` tests on the same local variable are kept consistent along the
+// path (the variable not being stored in between)? Removes the classic infeasible path
+// `if err == nil {..}; if err != nil {return}`.
+func (w *World) reachWithNilFacts(from, to *ssa.BasicBlock, stop map[*ssa.BasicBlock]bool) bool {
+	type state struct {
+		b *ssa.BasicBlock
+		k string
+	}
+	seen := map[state]bool{}
+	fam := familyOf(from.Parent())
+	varOf := func(v ssa.Value) (string, *ssa.Alloc) {
+		if u, ok := v.(*ssa.UnOp); ok && u.Op == token.MUL {
+			if al, isAl := fam.canon(u.X).(*ssa.Alloc); isAl {
+				return fmt.Sprintf("%p", al), al
+			}
+		}
+		if ph, ok := v.(*ssa.Phi); ok {
+			return fmt.Sprintf("%p", ph), nil
+		}
+		return "", nil
+	}
+	encode := func(f map[string]bool) string {
+		var ks []string
+		for k, v := range f {
+			ks = append(ks, fmt.Sprintf("%s=%v", k, v))
+		}
+		sort.Strings(ks)
+		return strings.Join(ks, ",")
+	}
+	found := false
+	var dfs func(b *ssa.BasicBlock, facts map[string]bool)
+	dfs = func(b *ssa.BasicBlock, facts map[string]bool) {
+		if found {
+			return
+		}
+		if b == to {
+			found = true
+			return
+		}
+		if stop[b] {
+			return
+		}
+		st := state{b, encode(facts)}
+		if seen[st] {
+			return
+		}
+		seen[st] = true
+		// stores in this block invalidate facts about the stored variable
+		cur := map[string]bool{}
+		for k, v := range facts {
+			cur[k] = v
+		}
+		for _, in := range b.Instrs {
+			if s, ok := in.(*ssa.Store); ok {
+				if al, isAl := fam.canon(s.Addr).(*ssa.Alloc); isAl {
+					delete(cur, fmt.Sprintf("%p", al))
+				}
+			}
+			if c, ok := in.(*ssa.Call); ok {
+				// closures may assign captured variables
+				for _, a := range c.Call.Args {
+					if mc, isMC := a.(*ssa.MakeClosure); isMC {
+						for _, bnd := range mc.Bindings {
+							if al, isAl := bnd.(*ssa.Alloc); isAl {
+								delete(cur, fmt.Sprintf("%p", al))
+							}
+						}
+					}
+				}
+			}
+		}
+		cond, t, f, isIf := ifSuccs(b)
+		if !isIf {
+			for _, s := range b.Succs {
+				dfs(s, cur)
+			}
+			return
+		}
+		if bo, ok := cond.(*ssa.BinOp); ok && (bo.Op == token.EQL || bo.Op == token.NEQ) && (isNilConst(bo.Y) || isNilConst(bo.X)) {
+			v := bo.X
+			if isNilConst(bo.X) {
+				v = bo.Y
+			}
+			if key, _ := varOf(v); key != "" {
+				if isNil, known := cur[key]; known {
+					// follow only the consistent edge
+					takeTrue := (bo.Op == token.EQL) == isNil
+					if takeTrue {
+						dfs(t, cur)
+					} else {
+						dfs(f, cur)
+					}
+					return
+				}
+				ct, cf := map[string]bool{}, map[string]bool{}
+				for k, x := range cur {
+					ct[k], cf[k] = x, x
+				}
+				ct[key] = bo.Op == token.EQL
+				cf[key] = bo.Op != token.EQL
+				dfs(t, ct)
+				dfs(f, cf)
+				return
+			}
+		}
+		dfs(t, cur)
+		dfs(f, cur)
+	}
+	dfs(from, map[string]bool{})
+	return found
+}
